@@ -7,6 +7,7 @@ CONSTANTS
   Texts = {}
   Keys = {}
   MaxLevel = 99
+  NameVectors <- NoVectors
   InitMode = "none"
   LogFields = {"name", "kids", "store"}
   Ops = {"create", "import", "copy", "add_child", "remove_child", "replace_child", "replace_delete", "delete"}
